@@ -1,10 +1,3 @@
-import GoNeat.Spec.Registry
-#check @List.nodup_append
-#check @List.pairwise_flatMap
-#check @List.nodup_flatMap
-#check @List.mem_of_find?_eq_some
-#check @List.find?_some
-#check @List.find?_eq_none
-#check @List.flatMap_append
-#check @List.nodup_cons
-#check @List.mem_flatMap
+import GoNeat.Model.Mate
+open GoNeat
+#check @singlePointWalk.induct
